@@ -26,17 +26,19 @@ func opRegTime(key int, eon int64, id int, ts, blk int64) opSpec {
 func opRegEvent(eon int64, id int, exp, blk int64) opSpec {
 	return opSpec{K: "regevent", Eon: eon, Id: id, Exp: exp, Blk: blk}
 }
-func opFire(eon int64, id int, blk int64) opSpec { return opSpec{K: "fire", Eon: eon, Id: id, Blk: blk} }
+func opFire(eon int64, id int, blk int64) opSpec {
+	return opSpec{K: "fire", Eon: eon, Id: id, Blk: blk}
+}
 func opFetch(start, end uint64, logs ...logSpec) opSpec {
 	return opSpec{K: "fetch", Start: start, End: end, Logs: logs}
 }
-func opBlock(n, t uint64) opSpec               { return opSpec{K: "block", N: n, T: t} }
-func opReleased(eon int64, ids ...int) opSpec  { return opSpec{K: "released", Eon: eon, Ids: ids} }
-func opHandle(blk uint64, ids ...int) opSpec   { return opSpec{K: "handle", UBlk: blk, Ids: ids} }
-func opRestart() opSpec                        { return opSpec{K: "restart"} }
-func opUnfire(from int64) opSpec               { return opSpec{K: "unfire", From: from} }
-func opRbTime(from int64) opSpec               { return opSpec{K: "rbtime", From: from} }
-func opRbEvent(from int64) opSpec              { return opSpec{K: "rbevent", From: from} }
+func opBlock(n, t uint64) opSpec              { return opSpec{K: "block", N: n, T: t} }
+func opReleased(eon int64, ids ...int) opSpec { return opSpec{K: "released", Eon: eon, Ids: ids} }
+func opHandle(blk uint64, ids ...int) opSpec  { return opSpec{K: "handle", UBlk: blk, Ids: ids} }
+func opRestart() opSpec                       { return opSpec{K: "restart"} }
+func opUnfire(from int64) opSpec              { return opSpec{K: "unfire", From: from} }
+func opRbTime(from int64) opSpec              { return opSpec{K: "rbtime", From: from} }
+func opRbEvent(from int64) opSpec             { return opSpec{K: "rbevent", From: from} }
 
 // goodSet: keyper set 1 (the keyper under test at index 1 of three), activation block 100,
 // eon 1, successful key generation.
